@@ -32,6 +32,20 @@ type SimNet struct {
 	BufCap int
 	// HandlerPanics records panics in API handlers.
 	HandlerPanics []string
+	// dropResp[node] = number of upcoming non-stream requests to that node
+	// whose handler runs to completion but whose answer is lost.
+	dropResp map[int]int
+}
+
+// DropResponses makes the next n non-stream requests to a node take effect
+// there while the caller only sees a broken connection.
+func (sn *SimNet) DropResponses(node, n int) {
+	sn.mu.Lock()
+	if sn.dropResp == nil {
+		sn.dropResp = map[int]int{}
+	}
+	sn.dropResp[node] += n
+	sn.mu.Unlock()
 }
 
 var errConnReset = errors.New("simnet: connection reset by peer")
@@ -49,6 +63,13 @@ func (sn *SimNet) Attach(n *Node) *lhttp.Client {
 	c := lhttp.NewClient()
 	c.HTTPClient = &http.Client{Transport: &simTransport{net: sn, from: n}}
 	return c
+}
+
+// ClearDropResponses forgets pending lost-reply injections.
+func (sn *SimNet) ClearDropResponses() {
+	sn.mu.Lock()
+	sn.dropResp = nil
+	sn.mu.Unlock()
 }
 
 // Partition cuts (or heals) the link between two nodes in both directions.
@@ -363,6 +384,26 @@ func (t *simTransport) RoundTrip(req *http.Request) (*http.Response, error) {
 		go run()
 	}
 	<-c.hdrCh
+	sn.mu.Lock()
+	lose := req.URL.Path != "/stream" && sn.dropResp[target.ID] > 0
+	if lose {
+		sn.dropResp[target.ID]--
+	}
+	sn.mu.Unlock()
+	if lose {
+		for {
+			c.mu.Lock()
+			fin := c.done || c.dead
+			c.mu.Unlock()
+			if fin {
+				break
+			}
+			time.Sleep(time.Millisecond)
+		}
+		r.Count("fault.response_lost")
+		c.reset("response-lost")
+		return nil, errConnReset
+	}
 	c.mu.Lock()
 	dead, code, hdr := c.dead && !c.done && c.code == 0, c.code, c.hdr
 	c.mu.Unlock()
